@@ -49,6 +49,7 @@ type summary struct {
 	Files           int      `json:"files"`
 	Yields          int      `json:"yields"`
 	MapRanges       int      `json:"map_ranges"`
+	MapDeletes      int      `json:"map_deletes"`
 	Locks           int      `json:"locks"`
 	Pools           int      `json:"pool_ops"`
 	ClockReads      int      `json:"clock_reads"`
@@ -661,30 +662,30 @@ func (c *fileCtx) rangeStmt(n *ast.RangeStmt, isLabeled bool) {
 		}
 		x := c.text(n.X)
 		id := c.newSite(n.Pos(), "maprange", x)
+		// for k, v := range m {  ->  for __it := __simrt.RangeMap(N, m); __it.Next(); { k := __it.K; v := (m)[k];
+		// The iterator produces the keys present at the start in the order the tape
+		// chooses, leaves out keys deleted meanwhile, and lets the tape decide about
+		// keys created (or deleted and created again) during the iteration, which Go
+		// may or may not produce.
 		var b strings.Builder
-		keys := fmt.Sprintf("__simrt.Keys(%d, %s)", id, x)
+		it := fmt.Sprintf("__it%d", id)
+		fmt.Fprintf(&b, "for %s := __simrt.RangeMap(%d, %s); %s.Next(); { ", it, id, x, it)
 		kb, vb := isBlank(n.Key), isBlank(n.Value)
 		switch {
 		case n.Key == nil && n.Value == nil:
-			fmt.Fprintf(&b, "for range %s {", keys)
 		case n.Tok == token.DEFINE:
-			k := fmt.Sprintf("__k%d", id)
 			if !kb {
-				k = c.text(n.Key)
-			}
-			fmt.Fprintf(&b, "for _, %s := range %s { ", k, keys)
-			if vb {
-				fmt.Fprintf(&b, "if _, __ok%d := (%s)[%s]; !__ok%d { continue };", id, x, k, id)
-			} else {
-				fmt.Fprintf(&b, "%s, __ok%d := (%s)[%s]; if !__ok%d { continue };", c.text(n.Value), id, x, k, id)
-			}
-		default: // token.ASSIGN
-			fmt.Fprintf(&b, "for _, __k%d := range %s { __v%d, __ok%d := (%s)[__k%d]; if !__ok%d { continue }; _ = __v%d;", id, keys, id, id, x, id, id, id)
-			if !kb {
-				fmt.Fprintf(&b, " %s = __k%d;", c.text(n.Key), id)
+				fmt.Fprintf(&b, "%s := %s.K;", c.text(n.Key), it)
 			}
 			if !vb {
-				fmt.Fprintf(&b, " %s = __v%d;", c.text(n.Value), id)
+				fmt.Fprintf(&b, "%s := (%s)[%s.K];", c.text(n.Value), x, it)
+			}
+		default: // token.ASSIGN
+			if !kb {
+				fmt.Fprintf(&b, "%s = %s.K;", c.text(n.Key), it)
+			}
+			if !vb {
+				fmt.Fprintf(&b, "%s = (%s)[%s.K];", c.text(n.Value), x, it)
 			}
 		}
 		c.edits = append(c.edits, edit{c.off(n.For), c.off(n.Body.Lbrace) + 1, b.String()})
@@ -757,6 +758,19 @@ func (c *fileCtx) mutexPath(sel *ast.SelectorExpr) (expr string, isPtr bool, kin
 }
 
 func (c *fileCtx) call(n *ast.CallExpr) {
+	if id, ok := n.Fun.(*ast.Ident); ok && id.Name == "delete" && len(n.Args) == 2 && *flagMaps {
+		if _, isB := c.info.Uses[id].(*types.Builtin); isB {
+			if tv, ok := c.info.Types[n.Args[0]]; ok && tv.Type != nil {
+				if mt, isMap := tv.Type.Underlying().(*types.Map); isMap && sortableKey(mt.Key()) {
+					// tell the map-range seam (a key deleted and created again during an
+					// iteration may be skipped by Go)
+					c.edits = append(c.edits, edit{c.off(n.Pos()), c.off(n.Lparen) + 1, "__simrt.MapDelete("})
+					sum.MapDeletes++
+				}
+			}
+		}
+		return
+	}
 	if id, ok := n.Fun.(*ast.Ident); ok && id.Name == "close" && len(n.Args) == 1 {
 		if _, isB := c.info.Uses[id].(*types.Builtin); isB {
 			if !*flagChans {
